@@ -443,6 +443,31 @@ func (vc *VC) witnessCandidates(seeds []Term, env *Env) []Term {
 		push(add(c, intLit(1)))
 		push(sub(c, intLit(1)))
 	}
+	// the hidden indices of "for range" loops are always offered, also when a
+	// function has more integer locals than the cap admits: a quantified
+	// invariant over the ranged slice is needed at the element in hand
+	st := env.cellState()
+	if st != nil {
+		var keys []ssa.Value
+		for k := range st.cells {
+			if a, ok := k.(*ssa.Alloc); ok && a.Comment == "rangeindex" {
+				keys = append(keys, k)
+			}
+		}
+		sortValues(keys)
+		for _, k := range keys {
+			c := st.cells[k]
+			if c.Sort != SInt {
+				continue
+			}
+			for _, t := range []Term{c, add(c, intLit(1)), sub(c, intLit(1))} {
+				if !seen[t.S] {
+					seen[t.S] = true
+					out = append(out, t)
+				}
+			}
+		}
+	}
 	return out
 }
 
